@@ -330,3 +330,29 @@ def find_cycles(g, reach):
         if v not in index:
             sc(v)
     return out
+
+
+def thorough(ctx, chk):
+    """clippy cross-reference of the census (checker completeness)"""
+    from .. import thorough as T
+    g = panicx.Graph(ctx)
+    reach = g.reachable(entries(g))
+    lines = set()
+    ranges = []
+    raw = ctx.raw
+    by_file = {}
+    for f in raw.d["fns"]:
+        by_file.setdefault(f["file"], []).append(f)
+    for k in reach:
+        fn = g.fns[k]
+        sp = fn["span"]
+        for b in fn["blocks"]:
+            if b.get("cleanup"):
+                continue
+            t = b["t"]
+            if t["t"] in ("assert", "call"):
+                lines.add((t["span"]["file"], t["span"]["line"]))
+        for f in by_file.get(sp["file"], []):
+            if f["line"] <= sp["line"] <= f["end"] and fn.get("kind") != "Closure":
+                ranges.append((sp["file"], f["line"], f["end"]))
+    T.clippy_crossref(ctx, chk, {"lines": lines, "reachable_ranges": ranges})
